@@ -415,6 +415,23 @@ pub fn structured(orig: &[u8], map: &ProofMap, rng: &mut Rng, digest: usize) -> 
             }
         }
     }
+    // Merkle openings replaced by minimal well-formed encodings: no node vector at all, one empty
+    // vector, as many vectors as before but all empty, one vector holding a single digest
+    for f in map.fields.iter().filter(|f| f.kind == Kind::Blob && f.name.ends_with(".paths") && f.len > 0) {
+        let nv = orig[f.off] as usize;
+        let mut one = vec![1u8, 1];
+        one.extend(rng.bytes(digest));
+        for (what, nb) in [("no-node-vectors", vec![0u8]), ("one-empty-vector", vec![1u8, 0]), ("all-vectors-empty", std::iter::once(nv as u8).chain(std::iter::repeat(0u8).take(nv)).collect::<Vec<u8>>()), ("one-vector-one-digest", one)] {
+            if nb == orig[f.off..f.off + f.len] {
+                continue;
+            }
+            let mut b = orig.to_vec();
+            let delta = nb.len() as isize - f.len as isize;
+            b.splice(f.off..f.off + f.len, nb);
+            fix_lengths(map, &mut b, f.off, delta);
+            out.push(Mutant { class: format!("merkle-paths-replaced({what}):{}", generic(&f.name)), bytes: b });
+        }
+    }
     // coordinated FRI surgery: a layer removed / duplicated together with its commitment
     if let (Some(nl_off), Some(cm)) = (nl_off, map.fields.iter().find(|f| f.name == "commitments")) {
         for (k, r) in map.fri_layer_records.iter().enumerate() {
